@@ -8,6 +8,8 @@
 package main
 
 import (
+	"os"
+	"sync/atomic"
 	"context"
 	"encoding/binary"
 	"encoding/json"
@@ -586,7 +588,39 @@ func parked() (quiet bool, running int) {
 	return
 }
 
+// watchdog: a change that dead-locks the system under test (a mutex held across the OnBeforeInsert hook ...) leaves the main
+// goroutine blocked for good; after 75 s without any operation completing the script being run is written out as broken and
+// the harness exits, instead of hanging until the checker's 15-minute timeout
+var (
+	wdBeat int64
+	wdCur  func(msg string) // writes the current case with its error
+	wdMu   sync.Mutex
+)
+
+func watchdog() {
+	last, since := int64(-1), time.Now()
+	for {
+		time.Sleep(time.Second)
+		b := atomic.LoadInt64(&wdBeat)
+		if b != last {
+			last, since = b, time.Now()
+			continue
+		}
+		if time.Since(since) > 75*time.Second {
+			wdMu.Lock()
+			f := wdCur
+			wdMu.Unlock()
+			if f != nil {
+				f("watchdog: no operation completed within 75 s (dead-lock in the system under test?)")
+			}
+			os.Exit(0)
+		}
+	}
+}
+
 func waitQuiet() error {
+	atomic.AddInt64(&wdBeat, 1)
+	defer atomic.AddInt64(&wdBeat, 1)
 	deadline := time.Now().Add(30 * time.Second)
 	for i := 0; ; i++ {
 		q, _ := parked()
@@ -1108,6 +1142,13 @@ func main() {
 	logger.Logger.SetOutput(io.Discard)
 	out := hx.OpenOut(f.Out)
 	defer out.Close()
+	watch := func(put func(msg string)) {
+		wdMu.Lock()
+		wdCur = func(msg string) { put(msg); out.Close() }
+		wdMu.Unlock()
+		atomic.AddInt64(&wdBeat, 1)
+	}
+	go watchdog()
 	if *level == 3 {
 		initLevel2()
 		for i := 0; i < f.N; i++ {
@@ -1123,6 +1164,7 @@ func main() {
 				if err := json.Unmarshal(b, &c); err != nil {
 					panic(err)
 				}
+				watch(func(msg string) { c.Err = msg; out.Put(c) })
 				runScript2(&c)
 				out.Put(c)
 			})
@@ -1132,6 +1174,7 @@ func main() {
 		uniq := f.Seed % 1000 * 1000000
 		for i := 0; i < f.N; i++ {
 			c := &Case2{ID: i}
+			watch(func(msg string) { c.Err = msg; out.Put(c) })
 			g.runGenerated2(c, &uniq)
 			out.Put(c)
 		}
@@ -1143,6 +1186,7 @@ func main() {
 			if err := json.Unmarshal(b, &c); err != nil {
 				panic(err)
 			}
+			watch(func(msg string) { c.Err = msg; out.Put(c) })
 			runScript(&c)
 			out.Put(c)
 		})
@@ -1151,6 +1195,7 @@ func main() {
 	g := &gen{r: hx.Rand(f.Seed)}
 	for i := 0; i < f.N; i++ {
 		c := g.newCase(i)
+		watch(func(msg string) { c.Err = msg; out.Put(c) })
 		g.runGenerated(c)
 		out.Put(c)
 	}
